@@ -7,7 +7,7 @@ from __future__ import annotations
 
 import collections
 
-from ..common import Report, main_wrapper, scratch, seed, run_tlc, MachineryError, tlc_failure_excerpt
+from ..common import Report, main_wrapper, scratch, eff_seed, run_tlc, MachineryError, tlc_failure_excerpt
 from ..edgecheck import verdict_class
 from ..machine import run_units
 from .. import replay_printenv, reparse
@@ -35,7 +35,7 @@ def main():
             if mism:
                 rep.violation({"layer": "replay"}, {"history": rec["h"], "mismatch": mism})
         sel = (lambda m, p: a.only in p.name()) if a.only else None
-        recs = reparse.run(MODULES, seed(), cap=8 if quick else 32, derived=6 if quick else 40, select=sel)
+        recs = reparse.run(MODULES, eff_seed(), cap=8 if quick else 32, derived=6 if quick else 40, select=sel)
         stat = collections.Counter(x["status"] for x in recs)
         units, owners = [], []
         for x in recs:
